@@ -107,6 +107,7 @@ func OptStr(s *string) string {
 
 // Case is one generated case: the Gallina term and a human-readable description (for replays).
 type Case struct {
+	Heavy bool       `json:"-"` // gets a case file of its own
 	Term string      `json:"-"`
 	Desc interface{} `json:"desc"`
 	Cell string      `json:"cell"` // non-triviality / distinctness class
@@ -129,6 +130,9 @@ func NewWriter(prop, outDir, runModule string, perFile int) *Writer {
 func (w *Writer) Add(term string, desc interface{}, cell string) {
 	w.cases = append(w.cases, Case{Term: term, Desc: desc, Cell: cell})
 }
+func (w *Writer) AddHeavy(term string, desc interface{}, cell string) {
+	w.cases = append(w.cases, Case{Term: term, Desc: desc, Cell: cell, Heavy: true})
+}
 func (w *Writer) Count(key string) { w.Dist[key]++ }
 func (w *Writer) Len() int         { return len(w.cases) }
 
@@ -141,10 +145,12 @@ func (w *Writer) Flush() error {
 			cells[c.Cell] = true
 		}
 	}
-	for start := 0; start < len(w.cases); start += w.PerFile {
-		end := start + w.PerFile
-		if end > len(w.cases) {
-			end = len(w.cases)
+	for start, end := 0, 0; start < len(w.cases); start = end {
+		end = start + 1
+		if !w.cases[start].Heavy {
+			for end < len(w.cases) && end-start < w.PerFile && !w.cases[end].Heavy {
+				end++
+			}
 		}
 		var b strings.Builder
 		b.WriteString("From Coq Require Import Uint63.\nFrom PGV Require Import Base.Bytes " + w.RunModule + ".\n")
